@@ -151,13 +151,6 @@ def reference_build(build):
                 lines = ev['lines']
                 exec(compile('\n'.join(lines[:-1]), '<ref>', 'exec'), ns)
                 val = eval(compile(lines[-1].strip(), '<ref>', 'eval'), ns)
-                if 'call_after' in ev:
-                    try:
-                        val = val(ev['call_after'])
-                    except Exception as e:      # raised in the client's own call, outside any build
-                        val = ['raised-when-called', type(e).__name__]
-                if ev.get('iter_after'):
-                    val = [list(x) if isinstance(x, tuple) else x for x in val]
             else:
                 val = eval(compile(_code_text(ev), '<ref>', 'eval'), ns)
             values[ev['key']] = val
@@ -165,6 +158,15 @@ def reference_build(build):
                 top_values[ev['key']] = val
         except Exception as e:
             failed[ev['key']] = type(e).__name__
+    # what the client does with the values after the build (all entries have been evaluated by then)
+    for ev in build['evals']:
+        if ev['key'] in values and 'call_after' in ev:
+            try:
+                values[ev['key']] = values[ev['key']](ev['call_after'])
+            except Exception as e:      # raised in the client's own call, outside any build
+                values[ev['key']] = ['raised-when-called', type(e).__name__]
+        if ev['key'] in values and ev.get('iter_after'):
+            values[ev['key']] = [list(x) if isinstance(x, tuple) else x for x in values[ev['key']]]
     if 'bump' in syms:
         values['__bump__'] = sorted(map(str, syms['bump'].log))     # how often the code of side-effecting entries ran
     if failed:
@@ -242,7 +244,7 @@ def _gen_evals(r, env, n):
         g = ProgGen(r, env, p_error=r.choice([0.0, 0.1, 0.3]))
         key = f'e{i}'
         if kind == 'eval':
-            if r.random() < 0.04:
+            if i == 0 and r.random() < 0.08:      # (one such entry per build: what it sees depends on when it runs)
                 # the scratch area of the evaluation context: fresh for every evaluation, whatever the context object went through before
                 lines = ["ayns.ctx.user_data.setdefault('log', []).append(ca)", "[list(ayns.ctx.user_data['log']), sorted(ayns.ctx.user_data)]"]
                 g.features.add('context_user_data')
@@ -265,12 +267,13 @@ def _gen_evals(r, env, n):
                     lines = [f"sep_ = 'x{ch}y'"] + lines[:-1] + [f'[{lines[-1]}, sep_, len(sep_)]']
                     g.features.add('odd_line_boundary_char')
             ev = {'key': key, 'kind': 'eval', 'lines': lines, 'features': sorted(g.features)}
-            if r.random() < 0.06:
+            stateful = 'context_user_data' in g.features      # reads state other entries write: when it runs matters, keep it in the build
+            if not stateful and r.random() < 0.06:
                 # the value is a one-shot iterator: it is the client who consumes it, after the build
                 ev['lines'] = lines[:-1] + [r.choice(['(x_ * 2 for x_ in cl)', 'iter(cl)', 'zip(cl, cl)', 'map(scale, cl)', 'filter(None, cl)', 'reversed(cl)', 'enumerate(cl)'])]
                 ev['iter_after'] = True
                 ev['features'] = sorted(set(ev['features']) | {'iterator_value'})
-            if 'iter_after' not in ev and r.random() < 0.12 and len(lines[-1]) < 300:
+            if not stateful and 'iter_after' not in ev and r.random() < 0.12 and len(lines[-1]) < 300:
                 # the value is a function that reads names only when it is called - which the client does after the build
                 funs = [n for n, k in g.locals.items() if k == 'fun1']
                 if funs and r.random() < 0.5:
